@@ -690,6 +690,7 @@ static void gen_allowed(void) {
   stats2[mut ? B_AR_MUT : B_AR]++;
 }
 
+static int lp_stream;     /* 0 old, 1 fs, 2 mix */
 static void gen_fs_case(void) {
   unsigned k = rng_below(100);
   gn = 0;
@@ -705,7 +706,10 @@ static void gen_fs_case(void) {
 static void gen_case(void) {
   unsigned k = rng_below(100);
   gn = 0;
-  if (rng_chance(45)) { gen_fs_case(); return; }
+  /* two streams, selected by VERIF_LP_STREAM: `old` = the parser cases alone (the stream this harness produced before the
+   * fsroot ops existed, bit for bit), `fs` = the fsroot ops alone, anything else = a mix */
+  if (lp_stream == 1) { gen_fs_case(); return; }
+  if (lp_stream == 2 && rng_chance(45)) { gen_fs_case(); return; }
   if (k < 14) { gen_valid_list(8, 6, 12, !rng_chance(15)); emit("CL", "", &stats[B_CL_VALID]); }
   else if (k < 20) { gen_valid_list(40, 300, 700, 1); emit("CL", "", &stats[B_CL_VALID_BIG]); }
   else if (k < 22 && rng_chance(20)) { gen_valid_list(700 + rng_below(300), 5, 9, 1); emit("CL", "", &stats[B_CL_LONGFILE]); }
@@ -785,6 +789,7 @@ int main(int argc, char **argv) {
   snprintf(scratch, sizeof scratch, "%s.content", argv[3]);
   if (root_setup(argv[3]) < 0) return 2;
   rng_seed(rng_seed_from_env());
+  { const char *st = getenv("VERIF_LP_STREAM"); lp_stream = !st ? 2 : !strcmp(st, "old") ? 0 : !strcmp(st, "fs") ? 1 : 2; }
   char *line = NULL; size_t cap = 0;
   for (unsigned long i = 0; i < n; i++) {
     long pos = ftell(fops);
